@@ -138,6 +138,9 @@ class Inliner:
             self.expanded[fn.qualname] = []
             node.body = self._block(fn, node.body, [fn.qualname], set(_names(fn.node)))
             ast.fix_missing_locations(node)
+            from .loopnorm import normalize_loops
+
+            normalize_loops(node)  # hand-written walks over a collection are read as the `for` they stand for
             self._cache[key] = node
         return self._cache[key]
 
